@@ -188,3 +188,77 @@ where
     }
     Ok(())
 }
+
+/// The double-ended part of the protocol: `next_back` to exhaustion, `rev`, `rfold`,
+/// `nth_back` fresh and after a few steps from either end, and every split of the items between
+/// the two ends (`a` from the front, the rest from the back).
+pub fn double_ended_protocol<I, T, F>(what: &str, make: F, want: &[T]) -> Result<(), String>
+where
+    I: DoubleEndedIterator<Item = T>,
+    T: PartialEq + std::fmt::Debug + Clone,
+    F: Fn() -> I,
+{
+    let n = want.len();
+    let bad = |m: String| Err(format!("{what}: {m} (a linear scan gives {want:?})"));
+    let rev_want: Vec<T> = want.iter().rev().cloned().collect();
+    let got: Vec<T> = make().rev().collect();
+    if got != rev_want {
+        return bad(format!("rev() yields {got:?}"));
+    }
+    let folded: Vec<T> = make().rfold(Vec::new(), |mut v, x| {
+        v.push(x);
+        v
+    });
+    if folded != rev_want {
+        return bad(format!("rfold() visits {folded:?}"));
+    }
+    for i in 0..=n + 1 {
+        let got = make().nth_back(i);
+        if got.as_ref() != rev_want.get(i) {
+            return bad(format!("nth_back({i}) on a fresh iterator yields {got:?}"));
+        }
+    }
+    for a in 0..=n {
+        // a items from the front, then everything else from the back
+        let mut it = make();
+        let mut front = Vec::new();
+        for _ in 0..a {
+            match it.next() {
+                Some(x) => front.push(x),
+                None => return bad(format!("next() ran dry after {} of {a} items", front.len())),
+            }
+        }
+        let (lo, hi) = it.size_hint();
+        if lo > n - a || hi.map(|h| h < n - a).unwrap_or(false) {
+            return bad(format!("size_hint() = ({lo}, {hi:?}) with {} items left after {a} next()", n - a));
+        }
+        let mut back = Vec::new();
+        while let Some(x) = it.next_back() {
+            back.push(x);
+            if back.len() > n {
+                return bad("next_back() does not terminate".to_string());
+            }
+        }
+        if it.next().is_some() {
+            return bad(format!("next() yields an item after next_back() ran dry (split at {a})"));
+        }
+        back.reverse();
+        front.extend(back);
+        if front != want {
+            return bad(format!("{a} items from the front and the rest from the back give {front:?}"));
+        }
+        // and nth_back after a steps from the front
+        for j in 0..=(n - a) {
+            let mut it = make();
+            for _ in 0..a {
+                it.next();
+            }
+            let got = it.nth_back(j);
+            let exp = if j < n - a { Some(&want[n - 1 - j]) } else { None };
+            if got.as_ref() != exp {
+                return bad(format!("nth_back({j}) after {a} next() yields {got:?}"));
+            }
+        }
+    }
+    Ok(())
+}
